@@ -38,6 +38,20 @@ func specWord(s []byte, k int) T {
 // SpecWord, SpecGfmul: exported (under the verif tag only) for the contracts of rsec16.
 func SpecWord(s []byte, k int) T { return specWord(s, k) }
 func SpecGfmul(a, b T) T       { return specGfmul(a, b) }
+func SpecGfpow(t T, p int) T   { return specGfpow(t, p) }
+func SpecXtime(a T) T          { return specXtime(a) }
+
+// specFn2: the type of the logical functions of the matrix contracts.
+type specFn2 = func(int, int) T
+
+// specDotM is the row-by-column product over GF(2^16): the sum (xor) over k < n of
+// cf(i, k) * wf(k, j), for mathematical functions cf (left factor) and wf (right factor).
+func specDotM(cf specFn2, wf specFn2, i, j, n int) T {
+	if n <= 0 {
+		return 0
+	}
+	return specDotM(cf, wf, i, j, n-1) ^ specGfmul(cf(i, n-1), wf(n-1, j))
+}
 
 // specPow3 is 3^k (3 = x+1 generates the multiplicative group).
 func specPow3(k int) T {
@@ -542,26 +556,48 @@ func specGfpow(t T, p int) T {
 //@     use mulMono(j, n.rows, n.columns)
 //@     use mulNonneg(j, n.columns)
 
+// C11: the matrix built from an element function holds fn(i, j) at row i, column j (fn is required
+// to be side-effect free at every call site and is modelled as a mathematical function).
 //@ func NewMatrixFromFunction
 //@   props C11 C07
 //@   note pure-param fn
+//@   inst-counters
 //@   requires rows <= 0 || columns <= 0 || mathint(rows) * mathint(columns) <= 70368744177664
 //@   panics rows <= 0 || columns <= 0
 //@   modifies nothing
 //@   ensures matOK(result) && result.rows == rows && result.columns == columns
 //@   ensures fresh(result.elements)
+//@   ensures forall(a, 0, rows, forall(b, 0, columns, result.elements[mathint(a)*mathint(columns)+b] == fn(a, b)))
 //@   assert-call fn : 0 <= arg0 && arg0 < rows && 0 <= arg1 && arg1 < columns
 //@   loop 0
-//@     invariant rows > 0 && columns > 0
+//@     invariant rows > 0 && columns > 0 && i >= 0 && fresh(elements) && mathint(len(elements)) == mathint(rows) * mathint(columns)
+//@     invariant forall(a, 0, i, forall(b, 0, columns, elements[mathint(a)*mathint(columns)+b] == fn(a, b)))
 //@     use mulMono(i, rows, columns)
+//@     use mulMono(?a, i, columns)
+//@     use mulNonneg(?a, columns)
+//@   loop 1
+//@     invariant rows > 0 && columns > 0 && i >= 0 && i < rows && j >= 0 && fresh(elements) && mathint(len(elements)) == mathint(rows) * mathint(columns)
+//@     invariant forall(a, 0, i, forall(b, 0, columns, elements[mathint(a)*mathint(columns)+b] == fn(a, b)))
+//@     invariant forall(b, 0, j, elements[mathint(i)*mathint(columns)+b] == fn(i, b))
+//@     use mulMono(i, rows, columns)
+//@     use mulMono(?a, i, columns)
+//@     use mulNonneg(?a, columns)
+//@     use mulNonneg(i, columns)
 
 //@ func NewIdentityMatrix
 //@   props C11 C07
+//@   inst-counters
 //@   requires mathint(n) * mathint(n) <= 70368744177664
 //@   panics n <= 0
 //@   modifies nothing
 //@   ensures matOK(result) && result.rows == n && result.columns == n
 //@   ensures fresh(result.elements)
+//@   ensures forall(a, 0, n, forall(b, 0, n, result.elements[mathint(a)*mathint(n)+b] == ite(a == b, T(1), T(0))))
+
+//@ func NewIdentityMatrix$1
+//@   props C11 C07
+//@   pure
+//@   ensures result == ite(i == j, T(1), T(0))
 
 //@ func (Matrix).Inverse
 //@   props C11 C07
@@ -577,17 +613,49 @@ func specGfpow(t T, p int) T {
 //@   modifies nothing
 //@   ensures implies(result1 == nil, matOK(result0) && result0.rows == n.rows && result0.columns == n.columns && fresh(result0.elements))
 
+// C11: the matrix product is the field-wise row-by-column product. cf/wf are logical functions
+// defined as the entries of the two factors (definitional, see rsec16 for the convention).
+//@ pred matIs(f, m) = forall(a, 0, m.rows, forall(b, 0, m.columns, f(a, b) == m.elements[mathint(a)*mathint(m.columns)+b]))
+//@ lemma dotMZero
+//@   props C11
+//@   mode int
+//@   forall cf specFn2, wf specFn2, i int, j int
+//@   ensures specDotM(cf, wf, i, j, 0) == 0
+//@ lemma dotMStep
+//@   props C11
+//@   mode int
+//@   opaque
+//@   forall cf specFn2, wf specFn2, i int, j int, n int
+//@   requires n >= 0 && n < 4611686018427387904
+//@   ensures specDotM(cf, wf, i, j, n+1) == specDotM(cf, wf, i, j, n) ^ specGfmul(cf(i, n), wf(n, j))
+
 //@ func (Matrix).Times
 //@   props C11 C07
+//@   opaque
+//@   inst-counters
+//@   logical cf : specFn2
+//@   logical wf : specFn2
+//@   logical-definitional
 //@   requires matOK(m) && matOK(n) && mathint(m.rows) * mathint(n.columns) <= 70368744177664
+//@   requires matIs(cf, m) && matIs(wf, n)
 //@   panics m.columns != n.rows
 //@   modifies nothing
 //@   ensures matOK(result) && result.rows == m.rows && result.columns == n.columns && fresh(result.elements)
+//@   ensures forall(a, 0, m.rows, forall(b, 0, n.columns, result.elements[mathint(a)*mathint(n.columns)+b] == specDotM(cf, wf, a, b, m.columns)))
 
 // The element function of Times is only ever called by NewMatrixFromFunction, whose call-site
 // assertion guarantees 0 <= i < rows, 0 <= j < columns.
 //@ func (Matrix).Times$1
 //@   props C11 C07
 //@   opaque
+//@   pure
+//@   logical cf : specFn2
+//@   logical wf : specFn2
+//@   logical-definitional
 //@   requires matOK(m) && matOK(n) && m.columns == n.rows && 0 <= i && i < m.rows && 0 <= j && j < n.columns
-//@   modifies nothing
+//@   requires matIs(cf, m) && matIs(wf, n)
+//@   ensures result == specDotM(cf, wf, i, j, m.columns)
+//@   uses dotMZero(cf, wf, i, j)
+//@   loop 0
+//@     invariant k >= 0 && k <= m.columns && t == specDotM(cf, wf, i, j, k)
+//@     use dotMStep(cf, wf, i, j, k)
